@@ -236,4 +236,25 @@ CHECKS = {
              "thorough": {"checks": 300, "shards": 16, "timeout": 3400}},
         ],
     },
+    "C07": {
+        "level": "exploration",
+        "level_text": ("A hostile sender script (hand-encoded wire records, so nothing passes through the repository's validating writers) "
+                       "sends manifests whose root, directory and file rel_path, item id and FileBegin rel_path are drawn from an escape "
+                       "grammar (parent references, absolute paths, doubled and back slashes, NUL, %2e, 300-byte names, names of sentinel "
+                       "files) to the real receivers (multi-stream in both root-dir modes with resume on/off, legacy single-stream manifest "
+                       "receiver, RecvFile), with chunk frames carrying valid CRCs so that writes really happen. The output directory sits "
+                       "7 levels deep in a sandbox populated with sentinels; oracle: a (path,type,size,hash,mtime) snapshot of everything "
+                       "outside the output directory is unchanged. Mostly one field is hostile per case so that a failure names the field."),
+        "level_note": "Only sender-controlled strings; parent-reference depth <= 6 < sandbox depth 7, deeper escapes follow by monotonicity; pre-existing symlinks inside the output directory are out of scope.",
+        "technique": "property-based testing (rapid) with a grammar-based hostile-input generator and a filesystem-snapshot oracle",
+        "rule": ("case = manifest (0-2 dirs, 1-3 files) x hostile field set x escape string(s) x receiver variant x root mode x resume. "
+                 "Non-trivial = every case (the hostile string is delivered in a well-formed record); distinct by field set, variant, modes "
+                 "and the normalised shape of the escape strings."),
+        "assumptions": ["escapes with more than 6 parent references behave like those with 6"],
+        "units": [
+            {"name": "xfer", "pkg": X, "run": "^TestVerifC07",
+             "quick": {"checks": 700, "shards": 4, "timeout": 900},
+             "thorough": {"checks": 8000, "shards": 16, "timeout": 3400}},
+        ],
+    },
 }
